@@ -15,8 +15,8 @@ LEVEL = 'model_checking'
 FUNCTIONS = ['mofun.detect_bonds.detect_bonds', 'mofun.detect_bonds.max_bond_length', 'mofun.mofun.uc_neighbor_offsets']
 BOUNDS = {'quick': '12 element pairs (metal/non-metal combinations, both orders), 13 directions (axes, face and body diagonals), separation d symbolic '
                    'in (0.2, cutoff+0.6), one symbolic translation axis per instance with concrete shifts on the others placing the pair at faces, '
-                   'edges and corners; 2 orthorhombic + 3 triclinic cells and no cell; a third atom as bystander; both atom orders',
-          'thorough': 'all 13 directions x 3 axes on 5 cells, two symbolic translation axes'}
+                   'edges and corners; pairs bonded through two images at once on narrow cells; histories detect -> replicate/assign cell -> detect on one object; 2 orthorhombic + 3 triclinic cells and no cell; a third atom as bystander; both atom orders',
+          'thorough': 'as quick (incl. two-image pairs on narrow cells and detect / change cell / detect histories) with all 13 directions x 3 axes on 5 cells, two symbolic translation axes'}
 OUTSIDE = ['two fully symbolic atom positions (nonlinear real arithmetic in 6 variables: z3 answers unknown)', 'cells narrower than twice the cutoff',
            'IEEE rounding at the cutoff (1e-9 slack)']
 ASSUMPTIONS = ['perpendicular cell widths exceed twice the largest cutoff used (so the nearest image of B is the planted one)']
@@ -25,6 +25,7 @@ OPTS = {'timeout_ms': 30000}
 
 CELLS = dict(CELLS)
 CELLS['narrow-tilted'] = [[3.6, 0, 0], [1.8, 3.6, 0], [0, 0, 12.]]      # perpendicular widths between 1x and 2x the C-C cutoff
+CELLS['narrow-o'] = [[3.9, 0, 0], [0, 9.0, 0], [0, 0, 8.]]
 CELLS['narrow-tilted2'] = [[4.2, 0, 0], [-2.0, 4.0, 0], [1.0, -1.5, 9.]]
 PAIRS = [('Cu', 'Cl'), ('Ni', 'S'), ('Zn', 'Br'), ('C', 'C'), ('C', 'H'), ('H', 'C'), ('Zn', 'O'), ('O', 'Zn'), ('Fe', 'Fe'), ('Zr', 'Cl'), ('Na', 'H'), ('Cu', 'N'), ('Li', 'Li'), ('S', 'Se'), ('K', 'O')]
 DIRS = [(1, 0, 0), (0, 1, 0), (0, 0, 1), (1, 1, 0), (1, 0, 1), (0, 1, 1), (1, -1, 0), (1, 0, -1), (0, 1, -1), (1, 1, 1), (1, -1, 1), (1, 1, -1), (-1, 1, 1)]
@@ -60,6 +61,16 @@ def instances(tier, seed):
     for j, (di, ax) in enumerate([(0, 0), (3, 1), (6, 0), (1, 1), (9, 2), (7, 1)][:6 if tier == 'quick' else 6]):
         out.append(dict(name=f"bond:C-C:dir{di}:narrow-tilted{j % 2}:axis{ax}", family='bond', pair=('C', 'C') if j % 3 else ('C', 'H'), dir=di,
                         cell='narrow-tilted' if j % 2 == 0 else 'narrow-tilted2', axes=[ax], other=(0.1, 0.6, 0.3), third=False, dmax=3.4, cost=20))
+    # pairs that are within the cutoff through TWO images at once (cell edge between one and two cutoffs along the pair's direction):
+    # still one bond
+    out.append(dict(name="bond:C-C:dir0:narrow-tilted:two-images", family='bond', pair=('C', 'C'), dir=0, cell='narrow-tilted', axes=[0], other=(0.1, 0.6, 0.3), third=False,
+                    dmax=3.4, cost=20))
+    out.append(dict(name="bond:Zn-O:dir0:narrow-o:two-images", family='bond', pair=('Zn', 'O'), dir=0, cell='narrow-o', axes=[1], other=(0.95, 0.6, 0.3), third=False,
+                    dmax=3.7, swap=True, cost=20))
+    # histories on one object lineage: detect, change the cell (replicate / assign), detect again == detection on a freshly built copy
+    for j, (how, cell, di) in enumerate([('replicate', 'o1', 0), ('assign', 't1', 3), ('replicate', 'narrow-tilted', 0), ('assign-none', 'o1', 1)]):
+        out.append(dict(name=f"history:{how}:{cell}:dir{di}", family='history', how=how, pair=('C', 'C') if j % 2 == 0 else ('Zn', 'O'), dir=di, cell=cell, axes=[di % 3],
+                        other=(0.97, 0.02, 0.5), third=False, dmax=3.4 if 'narrow' in cell else None, cost=30))
     for j, pair in enumerate(PAIRS[:6 if tier == 'quick' else 12]):
         out.append(dict(name=f"bond:{pair[0]}-{pair[1]}:dir{j}:nocell", family='bond', pair=pair, dir=j, cell=None, axes=[], other=(0, 0, 0), third=(j % 2 == 0), cost=2))
     if tier == 'thorough':
@@ -86,7 +97,7 @@ def body(ctx, p):
     cut = DB.COVALENT_RADII[e1] + DB.COVALENT_RADII[e2] + (0.45 if (e1 in DB.NON_METALS or e2 in DB.NON_METALS) else 0.0)
     u = np.array(DIRS[p['dir']], dtype=float)
     u = u / np.linalg.norm(u)
-    d = ctx.real('d', 0.2, p.get('dmax', cut + 0.6))
+    d = ctx.real('d', 0.2, p.get('dmax') or cut + 0.6)
     cell = None if p['cell'] is None else np.array(CELLS[p['cell']], dtype=float)
     base = np.array([1.3, 1.7, 2.1])
     third = base + (np.array([0.5, 0.5, 0.5]).dot(cell) if cell is not None else np.array([9.0, 7.0, 8.0]))
@@ -122,6 +133,23 @@ def body(ctx, p):
     st.positions = np.array([rows[i] for i in order], dtype=object if ctx.sym else float)
     bonds = DB.detect_bonds(st)
     got = [tuple(int(x) for x in b) for b in bonds]
+    if p['family'] == 'history':
+        how = p['how']
+        if how == 'replicate':
+            st2 = st.replicate((2, 1, 1))
+        else:
+            st2 = st
+            st2.cell = None if how == 'assign-none' else np.array(cell) * np.array([[1.5], [1.0], [2.0]])
+        got2 = sorted(tuple(int(x) for x in b) for b in DB.detect_bonds(st2))
+        fresh = Atoms(elements=list(st2.elements), positions=np.zeros((len(st2), 3)), cell=None if st2.cell is None else np.array(st2.cell, dtype=float))
+        fresh.positions = np.array([[x for x in r] for r in st2.positions], dtype=object if ctx.sym else float)
+        got3 = sorted(tuple(int(x) for x in b) for b in DB.detect_bonds(fresh))
+        ctx.observe('bonds_after', [list(b) for b in got2])
+        ctx.require('detection after a change of cell on the same object equals detection on a freshly built identical structure', got2 == got3,
+                    detail=dict(same_object=got2, fresh=got3, how=how))
+        got1b = sorted(tuple(int(x) for x in b) for b in DB.detect_bonds(st)) if how == 'replicate' else None
+        if got1b is not None:
+            ctx.require('detection on the original is repeatable after it was replicated', got1b == sorted(got), detail=dict(first=got, again=got1b))
     ctx.observe('bonds', [list(b) for b in got])
     ia, ib = order.index(0), order.index(1)
     pair = (min(ia, ib), max(ia, ib))
